@@ -3,12 +3,13 @@
   KeyCalc ... func(row)   : executed symbolically with an IEEE-754 double field value (z3 FP theory) and a bit-vector model of
                             bitstring.BitArray: for all non-NaN doubles x < y the 64-bit patterns the REAL code computes satisfy
                             enc(x) <u enc(y), and equal numbers get equal patterns (so ties fall to the row number)
-  hex rendering           : BitArray.hex is 16 lowercase hex digits, big-endian (T7): order-isomorphic to <u, fixed width, so
-                            concatenated multi-field keys compare field-wise
+  hex rendering           : BitArray.hex is 16 lowercase hex digits, big-endian (T7): order-isomorphic to <u, fixed width
+  key shape               : every field's text is followed by the terminator FIELD_END = chr(0), lower than any character of a text
   _sorter.process         : per row: key = key_calc(row) ++ '{:08x}'(row number) paired with the same row object
-  suffix lemmas (strings as arrays with a first-difference witness):
-        equal keys: order follows the row number (stability); different keys, neither a proper prefix of the other: the
-        suffix does not change their order.  (the proper-prefix case is recorded finding F-C12-prefix)
+  order lemmas (strings as arrays with a first-difference witness):
+        a smaller first field (a proper prefix included) decides, whatever follows it; equal first fields: the order is the
+        order of what follows (the next field ... finally the row number: stability).  Field-wise order by induction.
+        (On the pinned tree fields were concatenated without a terminator: F-C12-prefix, fixed by 75a8f6d.)
   _sorter                 : db.insert drains the whole stream before the first yield; yields the values of db.items(reverse)
 With T6 (KVFile.items returns all stored pairs in key order, reverse = reversed) the output is the permutation sorted by
 (key, row number); reverse is the exact reverse.
@@ -22,8 +23,7 @@ TRUSTED = ['T1 pyvc model of Python (DESIGN 3)', 'T7 bitstring.BitArray(float=v,
            'order, reverse reverses, independent of batch size and cache', 'T16 z3 / cvc5',
            'int -> double conversion is exact and strictly monotone for |i| <= 2**53 (IEEE-754)']
 ASSUMPTIONS = ['row numbers < 2**32 (8 hex digits)', 'integers beyond 2**53 / long decimals collapse to one double: recorded finding '
-               'F-C12-precision', 'text keys where one is a proper prefix of the other and the next character is <= "0": recorded '
-               'finding F-C12-prefix']
+               'F-C12-precision', 'key texts contain no NUL character (the field terminator)']
 
 
 def install_bitarray(it):
@@ -93,13 +93,16 @@ def sym_keycalc(vc):
                 n0 = len(it.path.events)
                 key = it.call(kc, [row])
                 kt = term(key, StrS)
-                # the key is the hex rendering of the pattern the code computed: read the pattern back from the term
+                # the key is the hex rendering of the pattern the code computed, followed by the field terminator: read the
+                # pattern back from the term
                 kt = z3.simplify(kt)
-                ok = z3.is_app(kt) and kt.decl().name() == 'hex16'
-                check(it, 'numeric-key-is-the-hex-of-one-64-bit-pattern[%s]' % spec_kind, ok)
+                ok = z3.is_app(kt) and kt.decl().kind() == z3.Z3_OP_SEQ_CONCAT and kt.num_args() == 2 and \
+                    z3.is_app(kt.arg(0)) and kt.arg(0).decl().name() == 'hex16' and z3.is_string_value(kt.arg(1)) and \
+                    kt.arg(1).as_string() in ('\x00', '\\u{0}', '\\x00')
+                check(it, 'numeric-key-is-the-hex-of-one-64-bit-pattern-then-the-terminator[%s]' % spec_kind, ok)
                 if not ok:
                     return
-                encs.append(kt.arg(0))
+                encs.append(kt.arg(0).arg(0))
             ex, ey = encs
             check(it, 'encoding-is-strictly-monotone-on-doubles[%s]' % spec_kind, z3.Implies(z3.fpLT(x, y), z3.ULT(ex, ey)))
             check(it, 'equal-numbers-get-equal-keys[%s]' % spec_kind, z3.Implies(z3.fpEQ(x, y), ex == ey))
@@ -114,7 +117,10 @@ def sym_keycalc(vc):
         kc = it.call(KC, [PyList(['a', 'b'])])
         a, b = sym_str(it, 'a'), sym_str(it, 'b')
         key = it.call(kc, [PyDict({'a': a, 'b': b})])
-        check(it, 'text-key-is-the-concatenation-of-the-fields', term(key, StrS) == z3.Concat(a.t, b.t))
+        T = z3.StringVal('\x00')
+        check(it, 'text-key-is-each-field-followed-by-the-terminator', term(key, StrS) == z3.Concat(a.t, T, b.t, T))
+        m = it.module('dataflows.processors.sort_rows')
+        check(it, 'terminator-is-the-lowest-character', m.attrs.get('FIELD_END') == '\x00')
     vc.explore(fk, thunk2)
 
     def thunk3(it):
@@ -237,35 +243,44 @@ def sym_string_lemmas(vc):
         ax = z3.ForAll([i], z3.And(z3.Implies(z3.And(0 <= i, i < la), c[i] == a[i]),
                                    z3.Implies(z3.And(la <= i, i < la + ls), c[i] == s[i - la])))
         return c, la + ls, ax
-    k1, k2 = z3.Array('k1', z3.IntSort(), z3.IntSort()), z3.Array('k2', z3.IntSort(), z3.IntSort())
-    l1, l2 = z3.Int('l1'), z3.Int('l2')
-    s1, s2 = z3.Array('s1', z3.IntSort(), z3.IntSort()), z3.Array('s2', z3.IntSort(), z3.IntSort())
+    # The key of a row is  f1 ++ T ++ f2 ++ T ++ ... ++ fn ++ T ++ rownumber  where T (code point 0) is lower than every character
+    # of a field's text (texts with a NUL character are outside the claim; numbers are 16 hex digits).  Field-wise order follows
+    # by induction over the fields from the two lemmas below (the "rest" after the first terminator is again such a key or the
+    # row number):
+    a, b = z3.Array('a', z3.IntSort(), z3.IntSort()), z3.Array('b', z3.IntSort(), z3.IntSort())
+    la, lb = z3.Int('la'), z3.Int('lb')
+    r1, r2 = z3.Array('r1', z3.IntSort(), z3.IntSort()), z3.Array('r2', z3.IntSort(), z3.IntSort())
+    n1, n2 = z3.Int('n1'), z3.Int('n2')
     w, ws = z3.Int('w'), z3.Int('ws')
-    base = [l1 >= 0, l2 >= 0]
-    # (a) different keys, k1 < k2 with a true difference inside both (neither is a proper prefix of the other):
-    #     k1 ++ s1 < k2 ++ s2 with the same witness
-    c1, n1, ax1 = concat(k1, l1, s1, z3.IntVal(8), 'c1')
-    c2, n2, ax2 = concat(k2, l2, s2, z3.IntVal(8), 'c2')
-    hyp = base + [ax1, ax2, lex_lt(k1, l1, k2, l2, w), w < l1, w < l2]
-    vc.add('sort_rows.lemma.suffix-keeps-the-order-of-different-keys', hyp, lex_lt(c1, n1, c2, n2, w))
-    # (b) equal keys: the order is the order of the suffixes (stability): s1 < s2 at ws  =>  k ++ s1 < k ++ s2 at l + ws
-    k = z3.Array('k', z3.IntSort(), z3.IntSort())
-    lk = z3.Int('lk')
-    d1, m1, bx1 = concat(k, lk, s1, z3.IntVal(8), 'd1')
-    d2, m2, bx2 = concat(k, lk, s2, z3.IntVal(8), 'd2')
-    hyp2 = [lk >= 0, bx1, bx2, lex_lt(s1, z3.IntVal(8), s2, z3.IntVal(8), ws), ws < 8]
-    vc.add('sort_rows.lemma.equal-keys-ordered-by-row-number', hyp2, lex_lt(d1, m1, d2, m2, lk + ws))
-    # (c) cover: the hypotheses are satisfiable
-    vc.add('sort_rows.lemma.cover-a', hyp, None, kind='cover')
+    sep = z3.K(z3.IntSort(), z3.IntVal(0))          # the terminator as a one-character text
+    i0 = z3.Int('i0')
+    above = lambda x, lx: z3.ForAll([i0], z3.Implies(z3.And(0 <= i0, i0 < lx), x[i0] > 0))
+
+    def key_of(f, lf, rest, lrest, name):
+        c1, m1, ax1 = concat(f, lf, sep, z3.IntVal(1), name + '_t')
+        c2, m2, ax2 = concat(c1, m1, rest, lrest, name)
+        return c2, m2, [ax1, ax2]
+    # (a) first fields differ, a < b -- INCLUDING a being a proper prefix of b: a ++ T ++ rest1 < b ++ T ++ rest2, whatever follows
+    c1, m1, ax1 = key_of(a, la, r1, n1, 'c1')
+    c2, m2, ax2 = key_of(b, lb, r2, n2, 'c2')
+    hyp = [la >= 0, lb >= 0, n1 >= 0, n2 >= 0] + ax1 + ax2 + [above(a, la), above(b, lb), lex_lt(a, la, b, lb, w)]
+    vc.add('sort_rows.lemma.a-smaller-field-decides-whatever-follows-it', hyp, lex_lt(c1, m1, c2, m2, w))
+    # (b) first fields equal: the order is the order of what follows (the next field, finally the row number: stability)
+    d1, k1, bx1 = key_of(a, la, r1, n1, 'd1')
+    d2, k2, bx2 = key_of(a, la, r2, n2, 'd2')
+    hyp2 = [la >= 0, n1 >= 0, n2 >= 0] + bx1 + bx2 + [lex_lt(r1, n1, r2, n2, ws)]
+    vc.add('sort_rows.lemma.equal-fields-ordered-by-what-follows', hyp2, lex_lt(d1, k1, d2, k2, la + 1 + ws))
+    # (c) cover: the hypotheses are satisfiable, also with a proper prefix
+    vc.add('sort_rows.lemma.cover-a', hyp + [w == la, la < lb, la > 0], None, kind='cover')
     vc.add('sort_rows.lemma.cover-b', hyp2, None, kind='cover')
-    # (d) the proper-prefix case is NOT order preserving: witness kept as an executable finding (native test)
+    # (the proper-prefix case, a recorded finding on the pinned tree, is covered by lemma (a) since the terminator was introduced)
 
 
 def nat_sort(h):
     import decimal
     from dataflows import Flow, sort_rows
     for case in range(h.n(40, 400)):
-        kind = h.rng.choice(['float', 'int', 'decimal', 'mixed', 'text', 'two-fields'])
+        kind = h.rng.choice(['float', 'int', 'decimal', 'mixed', 'text', 'two-fields', 'two-texts', 'text-number', 'huge'])
         n = h.rng.choice([0, 1, 2, 5, 12]) if h.tier == 'quick' or h.rng.random() < 0.9 else 10300
         if case < 2:
             # two tables beyond the in-memory cache of the key/value file (10240 entries), ascending and descending, in
@@ -282,14 +297,26 @@ def nat_sort(h):
         elif kind == 'mixed':
             vals = [h.rng.choice([1, -1, 2.5, decimal.Decimal('2.25'), -3, 0, 10 ** 6, -2.5]) for _ in range(n)]
         elif kind == 'text':
-            # texts that are not proper prefixes of one another (see F-C12-prefix)
-            vals = [h.rng.choice(['apple', 'banana', 'cherry', 'éclair', 'Zebra', 'apply', 'b']) for _ in range(n)]
+            # (proper prefixes of one another included: 'Ann' < 'Ann Marie' < 'Anna')
+            vals = [h.rng.choice(['apple', 'banana', 'cherry', 'éclair', 'Zebra', 'apply', 'b', 'Ann', 'Ann Marie', 'Anna', 'app', '']) for _ in range(n)]
+        elif kind == 'two-texts':
+            vals = [(h.rng.choice(['li', 'lin', 'lia', 'l', 'li ']), h.rng.choice(['zoe', 'ann', 'amy', 'a', ''])) for _ in range(n)]
+        elif kind == 'text-number':
+            vals = [(h.rng.choice(['li', 'lia', 'lib', 'l']), h.rng.choice([5, -5, 50, 0.5])) for _ in range(n)]
+        elif kind == 'huge':
+            # integers are unbounded: beyond the range of a double they sort with the infinity of their sign
+            vals = [h.rng.choice([1, -1, 10 ** 300, 2 ** 1024, -10 ** 400, 3.5, 0]) for _ in range(n)]
         else:
             vals = [(h.rng.choice([1, 2, -1]), h.rng.choice(['x', 'y'])) for _ in range(n)]
-        if kind == 'two-fields':
+        if kind in ('two-fields', 'two-texts', 'text-number'):
             rows = [{'a': a, 'b': b, 'i': i} for i, (a, b) in enumerate(vals)]
-            key = '{a}{b}'
+            key = h.rng.choice(['{a}{b}', ['a', 'b'], ('a', 'b')])
             want = sorted(rows, key=lambda r: (r['a'], r['b'], r['i']))
+        elif kind == 'huge':
+            rows = [{'k': v, 'i': i} for i, v in enumerate(vals)]
+            key = h.rng.choice(['{k}', ['k']])
+            clamp = lambda v: float('inf') if v > 1.7e308 else (float('-inf') if v < -1.7e308 else v)
+            want = sorted(rows, key=lambda r: (clamp(r['k']), r['i']))
         else:
             rows = [{'k': v, 'i': i} for i, v in enumerate(vals)]
             key = h.rng.choice(['{k}', ['k']]) if kind != 'text' else '{k}'
